@@ -10,7 +10,7 @@ LEVEL = "exploration"
 N = {"quick": 1000, "thorough": 4000}
 RULE = ("cases over <=4 variables with 1-3 alternatives per side, each alternative an interval box (integer / half-integer bounds) along a "
         "distinguished variable plus optional bounds on the others, so that disjoint (gap >= 1), touching, overlapping and empty "
-        "alternatives occur on purpose, plus merge operands whose alternatives differ only beyond the 4th significant digit (bounds 100 / 100.04 / 100.08); operations: constructor with force_empty_intersection, contains_behavior, compound merge, <=; "
+        "alternatives occur on purpose, plus merge operands whose alternatives differ only beyond the 4th significant digit (bounds 100 / 100.04 / 100.08); operations: constructor with force_empty_intersection, contains_behavior, compound merge, <=, dictionary round trip; "
         "oracle: z3 over disjunctions (a point 'robustly outside' a union violates some term of every alternative by more than the "
         "tolerance); non-trivial = at least 2 alternatives on some side and the operation was judged; distinct = SHA-1 of the case")
 ASSUMPTIONS = ["<= is checked in one direction only (True => containment), as the property states"]
@@ -58,7 +58,15 @@ def _family(draw, var, others, disjoint):
 
 @st.composite
 def _case(draw):
-    op = draw(st.sampled_from(["construct", "contains", "merge", "merge", "le"]))
+    op = draw(st.sampled_from(["construct", "contains", "merge", "merge", "le", "roundtrip"]))
+    if op == "roundtrip":
+        # a compound contract written to its dictionary form and read back denotes the same unions (zero alternatives included)
+        aa, ra = draw(_family("a", ["b"], disjoint=True))
+        gg, _ = draw(_family("x", ["a"], disjoint=False))
+        if draw(st.integers(0, 3)) == 0:
+            aa = []
+        pts = [{"a": float(draw(st.integers(-6, 6))), "b": float(draw(st.integers(-4, 4))), "x": float(draw(st.integers(-6, 6)))} for _ in range(4)]
+        return {"op": op, "a1": aa, "g1": gg, "pts": pts, "rel": sorted(set(ra)) + (["zero-alternatives"] if not aa else [])}
     if op == "construct":
         if draw(st.integers(0, 5)) == 0:
             # two or three slabs / half-spaces across one direction over 3-4 variables: fewer rows than variables in every pair
@@ -202,6 +210,30 @@ def run_case(case):
         elif bool(got) != exp:
             viol = {"what": "nested contains_behavior answered %s; exact: %s" % (got, exp), "sig": {"kind": "wrong-nested-membership", "expected": exp}, "detail": {}}
         return {"viol": viol, "nontrivial": len(alts) >= 2, "labels": labels + ["expected-%s" % exp], "outcome": "judged"}
+    if op == "roundtrip":
+        iv, ov = [env.Var("a"), env.Var("b")], [env.Var("x")]
+        s1, c1 = env.call("compound-construct", lambda: env.PolyhedralIoContractCompound(nested(case["a1"], True), nested(case["g1"], False), iv, ov))
+        if s1 != "ok":
+            return {"viol": None, "nontrivial": False, "labels": labels + ["construction-refused"], "outcome": "construction-refused"}
+        s2, c2 = env.call("compound-roundtrip", lambda: env.PolyhedralIoContractCompound.from_strings(**c1.to_dict()), documented=env.STRING_DOCUMENTED)
+        viol = None
+        if s2 != "ok":
+            viol = {"what": "a compound contract could not be read back from its own dictionary form: %r" % c2, "sig": {"kind": "compound-roundtrip-raised"}, "detail": {}}
+        else:
+            for part, n1, n2 in (("assumptions", c1.a, c2.a), ("guarantees", c1.g, c2.g)):
+                if len(n1.nested_termlist) != len(n2.nested_termlist):
+                    viol = viol or {"what": "%s have %d alternative(s) before and %d after the round trip" % (part, len(n1.nested_termlist), len(n2.nested_termlist)),
+                                    "sig": {"kind": "compound-roundtrip", "part": part, "what": "alternatives"}, "detail": {}}
+                for pt in case["pts"]:
+                    beh = {env.Var(k): v for k, v in pt.items()}
+                    try:
+                        b1, b2 = n1.contains_behavior(beh), n2.contains_behavior(beh)
+                    except ValueError:
+                        continue
+                    if bool(b1) != bool(b2):
+                        viol = viol or {"what": "%s: membership of %s is %s before and %s after the round trip" % (part, pt, b1, b2),
+                                        "sig": {"kind": "compound-roundtrip", "part": part, "what": "membership"}, "detail": {}}
+        return {"viol": viol, "nontrivial": True, "labels": labels, "outcome": "judged"}
     if op == "le":
         n1, n2 = nested(case["alts"], False), nested(case["alts2"], False)
         status, got = env.call("NestedTermList.__le__", lambda: n1 <= n2)
